@@ -14,7 +14,7 @@ import z3
 from pyvc.registry import reg
 from pyvc.interp import Interp
 from pyvc.interp_ext import LoopSpec
-from pyvc.core import PList, SymObj, ClassVal, fresh_int, Unsupported, PyvcError
+from pyvc.core import PList, SymObj, ClassVal, fresh_int, Unsupported, PyvcError, HARNESS_ERRORS
 from pyvc.tmpl import Tmpl, Atom, CBlock, join as tjoin
 from pyvc import minic
 from pyvc.minic import OBJ, W8, IDX
@@ -367,7 +367,7 @@ def vc_index_arguments():
                         names = [a.attrs.get("name") for a in args]
                         it.oblige(st, "post", f"arguments_obj_indices_extra[{lab}]", z3.BoolVal(names == ["obj"] + [f"i{k}" for k in range(want)] + ["value"]))
                         it.oblige(st, "post", f"index_arguments_are_int64[{lab}]", z3.BoolVal(all(a.attrs["atype"].attrs.get("_c_type") == "int64_t" for a in args[1:1 + want])))
-            except Unsupported as e:
+            except HARNESS_ERRORS as e:
                 vc_index_arguments.undecided = getattr(vc_index_arguments, "undecided", []) + [(lab, str(e)[:120])]
             obs += it.obligations
     for o in obs:
